@@ -430,6 +430,11 @@ func (c *Ctx) stepGates(fn *ssa.Function, exit ssa.Instruction, st stepRef, resI
 	} else {
 		g = GErrNil(res)
 	}
+	return c.stepGatesG(fn, exit, st, g)
+}
+
+// stepGatesG: like stepGates for an arbitrary guard over values of the function holding the step.
+func (c *Ctx) stepGatesG(fn *ssa.Function, exit ssa.Instruction, st stepRef, g Guard) (bool, string) {
 	if len(st.via) == 0 {
 		return mustPass(fn, exit, g)
 	}
@@ -741,5 +746,55 @@ func scopeFuncs(fn *ssa.Function, depth int) []*ssa.Function {
 		}
 	}
 	walk(fn, depth)
+	return out
+}
+
+// httpErr: a refusal written with http.Error — directly, or through a first-party helper
+// (func fail(w, msg, code) { http.Error(w, msg, code) }) that passes its parameters on; code is
+// the status value in the frame of the function that was scanned.
+type httpErr struct {
+	site ssa.CallInstruction
+	code ssa.Value
+}
+
+func (c *Ctx) httpErrors(fn *ssa.Function) []httpErr {
+	var out []httpErr
+	for _, ci := range callsIn(fn) {
+		if calleeName(ci) == "net/http.Error" {
+			out = append(out, httpErr{ci, arg(ci, 2)})
+			continue
+		}
+		callee := ci.Common().StaticCallee()
+		if callee == nil || !IsFirstParty(callee) || callee.Blocks == nil {
+			continue
+		}
+		// the helper must call http.Error on every path, with its own parameter as the status
+		var inner ssa.CallInstruction
+		for _, cj := range callsTo(callee, "net/http.Error") {
+			inner = cj
+		}
+		if inner == nil {
+			continue
+		}
+		all := true
+		for _, r := range returnsOf(callee) {
+			if reachFromWithoutMarkerAvoiding(callee.Blocks[0], r, func(in ssa.Instruction) bool { return in == inner.(ssa.Instruction) }, nil) {
+				all = false
+			}
+		}
+		if !all {
+			continue
+		}
+		code := arg(inner, 2)
+		if p, ok := strip(code).(*ssa.Parameter); ok {
+			for i, q := range callee.Params {
+				if q == p && i < len(ci.Common().Args) {
+					out = append(out, httpErr{ci, ci.Common().Args[i]})
+				}
+			}
+		} else if _, isC := constInt(code); isC {
+			out = append(out, httpErr{ci, code})
+		}
+	}
 	return out
 }
